@@ -44,6 +44,8 @@ pub struct Mn {
     pub next_sector: SectorNumber,
     pub creation_deposit: TokenAmount,
     pub whale: bool,
+    /// the harness keeps this miner's sectors proven (PoSt for every open deadline)
+    pub auto_post: bool,
 }
 
 pub struct MinerWorld {
@@ -109,7 +111,7 @@ pub fn miner_world(seed: u64, policy: Policy, kinds: &[bool], whale_sectors: u64
         // working capital
         let (r, _) = call0(&v, &owner, &addr, &fil(if whale { 1_000_000 } else { 20_000 }), fvm_shared::METHOD_SEND);
         assert!(r.code.is_success());
-        miners.push(Mn { addr, owner, worker, post_proof: post, seal_proof: seal, ni_proof: ni, next_sector: 100 * (k as u64 + 1), creation_deposit: st.locked_funds.clone(), whale });
+        miners.push(Mn { addr, owner, worker, post_proof: post, seal_proof: seal, ni_proof: ni, next_sector: 100 * (k as u64 + 1), creation_deposit: st.locked_funds.clone(), whale, auto_post: whale });
     }
     let others: Vec<Address> = accts.iter().cloned().filter(|a| !used.contains(a)).collect();
     let mut w = MinerWorld { v, miners, others, genesis_total };
@@ -200,6 +202,22 @@ pub fn prove_commit(v: &Mvm, m: &Mn, caller: &Address, sectors: &[SectorNumber],
         require_notification_success: false,
     };
     call(v, caller, &m.addr, &TokenAmount::zero(), MinerMethod::ProveCommitSectors3 as u64, Some(&params))
+}
+
+pub fn prove_commit_pieces(v: &Mvm, m: &Mn, caller: &Address, sectors: Vec<(SectorNumber, Vec<fil_actor_miner::PieceActivationManifest>)>, require_success: bool) -> (vm_api::MessageResult, Option<Inv>) {
+    let params = ProveCommitSectors3Params {
+        sector_proofs: sectors.iter().map(|(sn, _)| RawBytes::new(vec![*sn as u8; 4])).collect(),
+        sector_activations: sectors.into_iter().map(|(sn, pieces)| SectorActivationManifest { sector_number: sn, pieces }).collect(),
+        aggregate_proof: RawBytes::default(),
+        aggregate_proof_type: None,
+        require_activation_success: require_success,
+        require_notification_success: false,
+    };
+    call(v, caller, &m.addr, &TokenAmount::zero(), MinerMethod::ProveCommitSectors3 as u64, Some(&params))
+}
+
+pub fn commd_of(seal: RegisteredSealProof, pieces: &[PieceInfo]) -> cid::Cid {
+    fake_unsealed_cid(seal, pieces).unwrap()
 }
 
 pub fn prove_commit_ni(v: &Mvm, m: &Mn, caller: &Address, sectors: &[SectorNumber], expiration: ChainEpoch, deadline: u64) -> (vm_api::MessageResult, Option<Inv>) {
@@ -363,7 +381,7 @@ pub fn whale_lite(w: &MinerWorld) -> Vec<MinerLite> {
 /// deadline that are not yet posted (reads only that deadline)
 pub fn whale_maintenance(w: &MinerWorld, o: &mut Outcome) {
     use fvm_ipld_encoding::CborStore;
-    for m in w.miners.iter().filter(|m| m.whale) {
+    for m in w.miners.iter().filter(|m| m.auto_post) {
         let st: fil_actor_miner::State = state(&w.v, &m.addr).unwrap();
         let dl = deadline_at(&w.v.policy, st.proving_period_start, w.v.epoch());
         if w.v.epoch() <= dl.open {
@@ -383,6 +401,38 @@ pub fn whale_maintenance(w: &MinerWorld, o: &mut Outcome) {
         let (r, _) = submit_post(&w.v, m, &m.worker, &dl, todo, true);
         o.count(if r.code.is_success() { "whale_posts_ok" } else { "whale_posts_failed" });
     }
+}
+
+/// advance to `to` ticking every epoch with scheduled work, giving every auto-posted miner a PoSt
+/// opportunity in each of its deadlines; returns false if a tick failed
+pub fn advance_light(w: &MinerWorld, to: ChainEpoch, o: &mut Outcome) -> bool {
+    let mut ok_all = true;
+    while w.v.epoch() < to {
+        whale_maintenance(w, o);
+        let e = w.v.epoch();
+        let mut stop_at = to;
+        for m in w.miners.iter().filter(|m| m.auto_post) {
+            let st: fil_actor_miner::State = state(&w.v, &m.addr).unwrap();
+            let dl = deadline_at(&w.v.policy, st.proving_period_start, e);
+            let next = if e <= dl.open { dl.open + 1 } else { dl.close + 1 };
+            stop_at = stop_at.min(next);
+        }
+        advance_miners(&w.v, stop_at.max(e + 1), false, &mut |_, inv, ok| {
+            o.count("ticks");
+            if !ok {
+                ok_all = false;
+            }
+            inv.walk(&mut |i, _, _| {
+                if i.method == fil_actor_miner::Method::OnDeferredCronEvent as u64 && !i.ok() && !i.injected {
+                    ok_all = false;
+                }
+            });
+        });
+        if !ok_all {
+            return false;
+        }
+    }
+    true
 }
 
 pub fn cron_events_for(v: &Mvm, miner: &Address) -> Vec<(ChainEpoch, i64)> {
